@@ -52,4 +52,6 @@ OracleVsDoc == (Complete /\ Consistent(plan)) =>
 FeasibleImpliesZero == (Complete /\ FeasibleRR(plan, cfg)) => DocErrors(plan, cfg, FALSE) = 0
 \* prints the complete feasible set (evaluated once per distinct state)
 EmitFeasible == (Complete /\ FeasibleRR(plan, cfg)) => PrintT(<<"F", plan>>)
+\* optional symmetry cut for quick runs: fix the first day (team relabelling and orientation)
+FirstDayFixed == Len(plan) >= 1 => plan[1] = <<2, -1, 4, -3>>
 =============================================================================
